@@ -25,7 +25,7 @@ RELATED = {
     "C04": ["C04"],
     "C06": ["C06", "C01", "C04", "C08"],
     "C07": ["C07", "C02", "C17"],
-    "C08": ["C08", "C01"],
+    "C08": ["C08", "C01", "C07"],
     "C17": ["C17", "C07"],
 }
 
